@@ -49,12 +49,6 @@ theorem weightedRR_returns_available_with_positive_weight (ws : List Nat) (pool 
 
 /-! ## Liveness: an upstream is returned whenever one is available -/
 
-theorem cookieRes_none {w : Bool} {r : Res} (h : cookieRes w r = .none) : r = .none := by
-  unfold cookieRes at h
-  split at h
-  · split at h <;> cases h
-  · exact h
-
 /-- FULL STATEMENT (fails for round robin at the uint32 wrap-around, see
     `roundRobin_some_if_any_available_full_fails`; hash policies need a non-zero hash):
     `anyAvail pool → (select w p pool ds).res ≠ .none`.
@@ -224,17 +218,31 @@ theorem first_is_earliest (pool : Pool) (i : Nat) (h : selFirst pool = .sel i) :
 theorem roundRobin_next_partial (pool : Pool) (c : Nat) (hc : c + pool.length < u32) (ha : anyAvail pool = true) :
     ∃ i c', selRR pool c = (.sel i, c') ∧ c < c' ∧ c' ≤ c + pool.length ∧ i = c' % pool.length ∧
       (∃ u, pool[i]? = some u ∧ u.avail = true) ∧
-      ∀ t, c < t → t < c' → availB pool (t % pool.length) = false := by
-  obtain ⟨v, hv, hav⟩ := anyAvail_iff.1 ha
-  obtain ⟨j, hj, hja⟩ := availAt_of_mem hv hav
-  unfold selRR
-  rw [if_neg (by omega)]
-  rcases rrGo_char pool (by omega) pool.length c hc with h | ⟨_, h2⟩
-  · exact h
-  · obtain ⟨t, ht1, ht2, ht3⟩ := residue_hit pool.length c j hj
-    have := h2 t ht1 ht2
-    rw [ht3, availB_true.2 hja] at this
-    cases this
+      ∀ t, c < t → t < c' → availB pool (t % pool.length) = false :=
+  selRR_char pool c hc ha
+
+/-- **round robin cycles through the available upstreams.** A run of `m` consecutive selections
+    (counter not wrapping) returns exactly the available positions among the consecutive counter
+    values `c+1, c+2, …, c'` it consumed, in that order — i.e. the pool positions
+    `(c+1) mod n, (c+2) mod n, …` with the unavailable ones left out. -/
+theorem roundRobin_cycles_partial (pool : Pool) (ds : List Nat) (m c : Nat)
+    (ha : anyAvail pool = true) (hc : c + m * pool.length < u32) :
+    ∃ c', (run m (.rr c) pool ds).2 = .rr c' ∧ c ≤ c' ∧ c' ≤ c + m * pool.length ∧
+      (run m (.rr c) pool ds).1.map (·.1) =
+        ((List.range' (c + 1) (c' - c)).filter (fun t => availB pool (t % pool.length))).map
+          (fun t => Res.sel (t % pool.length)) := by
+  obtain ⟨c', h1, h2, h3, h4⟩ := rr_run pool ha ds m c hc
+  refine ⟨c', h1, h2, h3, ?_⟩
+  rw [h4, List.map_map]
+  rfl
+
+/-- **… each exactly once per cycle**: in `numAvail` consecutive selections, from any counter
+    value (not wrapping), every available upstream is returned exactly once -/
+theorem roundRobin_each_available_once_per_cycle_partial (pool : Pool) (c : Nat) (ds : List Nat)
+    (ha : anyAvail pool = true) (hc : c + numAvail pool * pool.length < u32)
+    (j : Nat) (hj : ∃ u, pool[j]? = some u ∧ u.avail = true) :
+    ((run (numAvail pool) (.rr c) pool ds).1.map (·.1)).count (.sel j) = 1 :=
+  rr_each_once pool c ds ha hc j hj
 
 /-- nothing available: round robin returns nil after probing every position once -/
 theorem roundRobin_none (pool : Pool) (c : Nat) (hc : c + pool.length < u32) (ha : anyAvail pool = false) :
@@ -284,27 +292,19 @@ theorem weightedRR_honours_weights_partial (ws : List Nat) (pool : Pool) (c : Na
     (hs : 0 < ws.sum) (hc : c + 1 < u32) :
     ∃ i w, selWRR ws pool c = (.sel i, c + 1) ∧ ws[i]? = some w ∧
       wOffset ws i ≤ (c + 1) % ws.sum ∧ (c + 1) % ws.sum < wOffset ws i + w := by
-  have hcw : (c + 1) % ws.sum < ws.sum := Nat.mod_lt _ hs
-  obtain ⟨i, hown⟩ := ownerGo_some ws 0 0 ((c + 1) % ws.sum) (Nat.zero_le _) (by omega)
+  obtain ⟨i, hown, hsel⟩ := selWRR_owner ws pool c hall hlen h2 hs hc
   obtain ⟨k, w, hk, hw, hlo, hhi⟩ := ownerGo_spec ws 0 0 _ i (Nat.zero_le _) hown
   have hki : k = i := by omega
   subst hki
-  refine ⟨k, w, ?_, hw, by simpa [wOffset] using hlo, by simpa [wOffset] using hhi⟩
-  have hcol := wrrCollect_all ws (posWeights ws).length pool [] [] ws [] rfl rfl hlen.symm hall (by simp)
-  obtain ⟨_, hidx⟩ := wrrIndexGo_owner ws 0 0 0 ((c + 1) % ws.sum) (Nat.zero_le _) (by omega)
-  rw [hown] at hidx
-  simp only [Nat.sub_zero] at hidx
-  unfold selWRR
-  rw [if_neg (by omega), if_neg (by omega), if_neg (by omega)]
-  simp only [List.length_nil, List.nil_append] at hcol
-  rw [hcol, inc32_of_lt hc]
-  simp only
-  congr 1
-  have hlt : wrrIndexGo (posWeights ws) 0 0 ((c + 1) % ws.sum) < (posIdxFrom 0 ws).length := by
-    have := (List.getElem?_eq_some_iff.1 hidx).1
-    exact this
-  unfold wrrPick wrrIndex
-  rw [if_neg (by omega), Nat.mod_eq_of_lt hlt, hidx]
+  exact ⟨k, w, hsel, hw, by simpa [wOffset] using hlo, by simpa [wOffset] using hhi⟩
+
+/-- **… so over `W` consecutive selections upstream `i` is chosen exactly `wᵢ` times** (same
+    hypotheses, counter not wrapping during the cycle; from any counter value) -/
+theorem weightedRR_counts_partial (ws : List Nat) (pool : Pool) (c : Nat) (ds : List Nat)
+    (hall : ∀ v ∈ pool, v.avail = true) (hlen : ws.length = pool.length) (h2 : 2 ≤ ws.length)
+    (hs : 0 < ws.sum) (hc : c + ws.sum < u32) (i w : Nat) (hw : ws[i]? = some w) :
+    ((run ws.sum (.wrr ws c) pool ds).1.map (·.1)).count (.sel i) = w :=
+  wrr_counts ws pool c ds hall hlen h2 hs hc i w hw
 
 /-! ## hash policies -/
 
@@ -313,20 +313,6 @@ theorem hash_result (pool : Pool) :
     (selHash pool = .none ∧ hashPick pool = none) ∨
     (∃ i u, selHash pool = .sel i ∧ hashPick pool = some u ∧ pool[i]? = some u) :=
   selHash_hashPick pool
-
-theorem hashGo_congr : ∀ (p q : Pool) (i hi : Nat) (best : Res),
-    p.map (fun u => (u.avail, u.h)) = q.map (fun u => (u.avail, u.h)) → hashGo p i hi best = hashGo q i hi best
-  | [], [], _, _, _, _ => rfl
-  | [], _ :: _, _, _, _, h => by simp at h
-  | _ :: _, [], _, _, _, h => by simp at h
-  | u :: p, v :: q, i, hi, best, h => by
-    simp only [List.map_cons, List.cons.injEq, Prod.mk.injEq] at h
-    obtain ⟨⟨h1, h2⟩, h3⟩ := h
-    unfold hashGo
-    rw [h1, h2]
-    split
-    · exact hashGo_congr p q _ _ _ h3
-    · exact hashGo_congr p q _ _ _ h3
 
 /-- **equal keys go to the same upstream.** The choice of a hash policy is a function of the
     availability pattern and of the hashes of (upstream address ++ key) alone: no counter, no
@@ -371,18 +357,6 @@ theorem hash_stable_under_failure_of_others (pool : Pool) (u : Up) (f : Up → U
     obtain ⟨x, hx, rfl⟩ := List.mem_map.1 hb
     obtain ⟨hx1, hx2⟩ := hf x hav
     rw [hx2]; exact h5 x hx hx1
-
-theorem hashPick_max {pool : Pool} {u : Up} (h : hashPick pool = some u) :
-    u ∈ pool ∧ u.avail = true ∧ ∀ p ∈ pool, p.avail = true → p.h ≤ u.h := by
-  obtain ⟨A, B, h1, h2, _, h4, h5⟩ := (hashPick_iff pool u).1 h
-  subst h1
-  refine ⟨by simp, h2, ?_⟩
-  intro p hp hav
-  rcases List.mem_append.1 hp with hp | hp
-  · exact Nat.le_of_lt (h4 p hp hav)
-  · rcases List.mem_cons.1 hp with hp | hp
-    · subst hp; exact Nat.le_refl _
-    · exact h5 p hp hav
 
 /-- **adding an upstream moves a key only to the new upstream**: after inserting `v` anywhere, the
     key stays with `u` or goes to `v` (hypothesis: the available upstreams of the old pool have
@@ -499,47 +473,10 @@ theorem cookie_round_trip (fb' : Policy) (pool : Pool) (ds' : List Nat) (i : Nat
 
 /-! ## the draw list: random and least_conn use at most one draw per upstream -/
 
-theorem rndGo_not_starved : ∀ (rest : Pool) (i : Nat) (best : Res) (count : Nat) (ds : List Nat),
-    best ≠ .starved → rest.length ≤ ds.length → (rndGo rest i best count ds).1 ≠ .starved
-  | [], _, _, _, _, h, _ => by simpa [rndGo] using h
-  | u :: rest, i, best, count, ds, h, hl => by
-    unfold rndGo
-    split
-    · cases ds with
-      | nil => simp at hl
-      | cons d ds' =>
-        simp only
-        simp at hl
-        split
-        · exact rndGo_not_starved rest _ _ _ _ (by simp) hl
-        · exact rndGo_not_starved rest _ _ _ _ h hl
-    · exact rndGo_not_starved rest _ _ _ _ h (by simp at hl; omega)
-
 /-- the model never runs out of draws when given one draw per upstream -/
 theorem random_never_runs_out_of_draws (pool : Pool) (ds : List Nat) (h : pool.length ≤ ds.length) :
     (selRandom pool ds).1 ≠ .starved :=
   rndGo_not_starved pool 0 .none 0 ds (by simp) h
-
-theorem lcGo_not_starved : ∀ (rest : Pool) (i : Nat) (best : Res) (count : Nat) (least : Option Nat) (ds : List Nat),
-    best ≠ .starved → rest.length ≤ ds.length → (lcGo rest i best count least ds).1 ≠ .starved
-  | [], _, _, _, _, _, h, _ => by simpa [lcGo] using h
-  | u :: rest, i, best, count, least, ds, h, hl => by
-    unfold lcGo
-    simp at hl
-    split
-    · split
-      · split
-        · exact lcGo_not_starved rest _ _ _ _ _ (by simp) (by omega)
-        · cases ds with
-          | nil => simp at hl
-          | cons d ds' =>
-            simp only
-            simp at hl
-            split
-            · exact lcGo_not_starved rest _ _ _ _ _ (by simp) hl
-            · exact lcGo_not_starved rest _ _ _ _ _ h hl
-      · exact lcGo_not_starved rest _ _ _ _ _ h (by omega)
-    · exact lcGo_not_starved rest _ _ _ _ _ h (by omega)
 
 theorem leastConn_never_runs_out_of_draws (pool : Pool) (ds : List Nat) (h : pool.length ≤ ds.length) :
     (selLeastConn pool ds).1 ≠ .starved :=
@@ -560,10 +497,10 @@ def exPool : Pool := [exFull 1, exUp 2 3 7, exFailed 3, exUp 4 1 9, exUp 5 1 5]
 example : (exUp 2 3 7).avail = true ∧ (exFull 1).avail = false ∧ (exFailed 3).avail = false ∧
     (⟨9, true, 0, none, some false, 0, 0, 0⟩ : Up).avail = false ∧ (⟨9, false, 0, none, none, 0, 0, 0⟩ : Up).avail = false := by decide
 
--- select_returns_available: cookie → header(absent) → random_choose 2 returns upstream 3 of 5
-example : (select true (.cookie none (.randomChoose 2)) exPool [5, 3]).res = .sel 3 := by decide
+-- select_returns_available: cookie → header(absent) → random_choose 2 returns upstream 4 of 0..4
+example : (select true (.cookie none (.randomChoose 2)) exPool [5, 3]).res = .sel 4 := by decide
 -- weightedRR_returns_available_with_positive_weight
-example : (selWRR [2, 1, 1, 0, 3] exPool 6).1 = .sel 4 := by decide
+example : (selWRR [2, 1, 1, 0, 3] exPool 1).1 = .sel 4 := by decide
 
 -- select_some_if_any_available_partial: hypotheses hold on a four-level chain ending in round robin
 example : liveOK exPool (.cookie (some 77) (.keyed false (.keyed false (.rr 4294967000)))) = true ∧
@@ -584,6 +521,9 @@ example : selFirst exPool = .sel 1 := by decide
 
 -- roundRobin_next_partial: from counter 6 (position 1) the next available position is 3, counter 8
 example : 6 + exPool.length < u32 ∧ anyAvail exPool = true ∧ selRR exPool 6 = (.sel 3, 8) := by decide
+-- roundRobin_cycles_partial / each_available_once: three available upstreams (positions 1, 3, 4) in cyclic order
+example : numAvail exPool = 3 ∧ 6 + 7 * exPool.length < u32 ∧
+    (run 7 (.rr 6) exPool []).1.map (·.1) = [.sel 3, .sel 4, .sel 1, .sel 3, .sel 4, .sel 1, .sel 3] := by decide
 -- roundRobin_none
 example : anyAvail [exFull 1, exFailed 2] = false ∧ selRR [exFull 1, exFailed 2] 5 = (.none, 7) := by decide
 
@@ -599,6 +539,9 @@ example : (selRandomChoose 2 exPool [8589934592]).1 = .sel 3 := by decide
 def exAll : Pool := [exUp 1 0 0, exUp 2 0 0, exUp 3 0 0]
 example : (∀ v ∈ exAll, v.avail = true) ∧ [2, 0, 3].length = exAll.length ∧ 0 < [2, 0, 3].sum := by decide
 example : (run 5 (.wrr [2, 0, 3] 0) exAll []).1.map (·.1) = [.sel 0, .sel 2, .sel 2, .sel 2, .sel 0] := by decide
+
+-- weightedRR_counts_partial: over W = 5 selections from counter 7: upstream 0 twice, 1 never, 2 three times
+example : 7 + [2, 0, 3].sum < u32 ∧ (run 5 (.wrr [2, 0, 3] 7) exAll []).1.map (·.1) = [.sel 2, .sel 2, .sel 0, .sel 0, .sel 2] := by decide
 
 -- hash: upstream 3 (hash 9) wins; it survives removal / failure of the others; a new upstream with hash 8 changes nothing
 example : selHash exPool = .sel 3 ∧ hashPick exPool = some (exUp 4 1 9) := by decide
@@ -620,6 +563,6 @@ example : (select true (.cookie (some 3) .random) exPool [0, 1, 1]).res = .sel 1
     (select true (.cookie (some 2) .random) exPool []).res = .sel 1 := by decide
 
 -- the draw list: one draw per upstream is enough
-example : (selRandom exPool [3, 1, 2, 0, 0]).1 = .sel 3 ∧ (selRandom exPool [3]).1 = .starved := by decide
+example : exPool.length ≤ [3, 0, 1, 0, 0].length ∧ (selRandom exPool [3, 0, 1, 0, 0]).1 = .sel 3 ∧ (selRandom exPool [3]).1 = .starved := by decide
 
 end CaddyModel.C08
